@@ -166,15 +166,19 @@ impl<'a> ExprAST<'a> {
         rhs: &ExprAST<'a>,
         ctx: &mut Context,
     ) -> Result<Value> {
-        match InfixOpManager::new().get_op_type(&op)? {
+        // type and handler come from ONE lookup, made before the operands run: a registration that lands
+        // while an operand is being evaluated must not pair the old type with the new handler
+        let config = InfixOpManager::new().get(&op)?;
+        let handler = config.3;
+        match config.1 {
             InfixOpType::CALC => {
-                InfixOpManager::new().get_handler(&op)?(lhs.exec(ctx)?, rhs.exec(ctx)?)
+                handler(lhs.exec(ctx)?, rhs.exec(ctx)?)
             }
             InfixOpType::SETTER => {
                 let (a, b) = (lhs.exec(ctx)?, rhs.exec(ctx)?);
                 ctx.set_variable(
                     lhs.get_reference_name()?,
-                    InfixOpManager::new().get_handler(&op)?(a, b)?,
+                    handler(a, b)?,
                 );
                 Ok(Value::None)
             }
